@@ -527,7 +527,13 @@ impl St {
                     let j = junk(&mut dead);
                     b.push_front(j);
                 }
-                while b.pop_back().is_some() {}
+                let mut guard = 0;
+                while b.pop_back().is_some() {
+                    guard += 1;
+                    if guard > n + 1 {
+                        return Err("layout construction: pop_back keeps returning elements".into());
+                    }
+                }
             }
             Route::ExtendDrain => {
                 let src: Vec<Tracked> = (0..n).map(|_| junk(&mut dead)).collect();
